@@ -1,20 +1,24 @@
 """C07: SetSketch register collisions follow the model; Jaccard bounds hold."""
 import json
 import vlib
-from props import setflib
+from props import setflib, estlib
 
 ID = "C07"
 LEVEL = "proof"
 PROPERTIES_MODULE = "Properties.C07"
-COQ_TARGETS = ["Properties/C07.vo"]
-THEOREMS = ["C07_no_order_assertion", "C07_bounds_ordered", "C07_bounds_gap", "C07_bounds_contain_J", "C07_pb_collision"]
+COQ_TARGETS = ["Properties/C07.vo", "Model/Dispatch.vo"]
+THEOREMS = ["C07_no_order_assertion", "C07_bounds_ordered", "C07_bounds_gap", "C07_bounds_contain_J", "C07_pb_collision",
+            "C07_increment_is_renyi_spacing", "C07_register_threshold", "C07_register_antitone", "C07_estimator_is_match_fraction"]
 AXIOMS_ALLOWED = setflib.REAL_AXIOMS
-TRANSLATORS = [("setsketch-formulas", setflib.translate)]
+TRANSLATORS = [("setsketch-formulas", setflib.translate), ("setsketch-register-law", setflib.translate_setlaw),
+               estlib.translator("EstIdx")]
 TRUSTED_BASE = [
     "translate/tr_setformulas.py: the bodies of get_jaccard_bounds and MleCost::pb must equal closed templates; the Coq definitions "
     "jb_sup, jb_binf, jb_inf, pb_fun are the transcription of those templates over the reals (b.powf(jac/2) enters as the variable X); "
     "the abort structure (is there an assertion on jinf <= jsup?) is read from the source",
     "real-number axioms of the Coq standard library",
+    "translate/tr_setlaw.py (register law of SetSketcher::sketch), translate/tr_estimators.py (jaccard::get_jaccard_index_estimate); "
+    "register correspondence through the extracted model (as C05)",
     "implementation-level sweep: 10^4 (b, jac) pairs incl. jac within 1e-12 of 0 and 1, and 10^4 (b, u, J) triples through the cost "
     "function's collision probability",
 ]
@@ -24,6 +28,7 @@ ASSUMPTIONS = ["PARTIAL: the first clause (the expected fraction of equal regist
 
 
 def correspond(run):
+    setflib.correspond_registers(run, 300 if run.tier == "quick" else 3000)
     rc, js, out, err = vlib.harness(["bounds-props", "--seed", run.seed, "--n", 6000 if run.tier == "quick" else 200000], timeout=1800)
     if rc != 0 or js is None:
         run.oblige("direct:bounds-props", "correspondence", False, (out[-300:] + err[-300:]))
@@ -37,6 +42,13 @@ def correspond(run):
                        "uniform}, J in {0, max, uniform}: returns without abort, lower <= upper, contains J within 1e-4",
                   extra={"largest_excess_over_true_J": js["max_excess"]})
     run.oblige("direct:bounds-sweep-ran", "correspondence", js["tried"] > 1000, "")
+
+
+def search(run):
+    estlib.search(run, "EstIdx")
+    from props import sklib
+    # the registers of a set must not depend on the order / history of the stream (else common items of two sets land on different registers)
+    sklib.direct_props(run, ["ss-order", "reinit-ss"], n=600)
 
 
 def replay(path):
